@@ -396,3 +396,24 @@ Proof. vm_compute. repeat split. Qed.
 Lemma import_independent_of_grouping_all : forall limit strict gs gs' t,
   concat gs = concat gs' -> handle_groups limit strict gs t = handle_groups limit strict gs' t.
 Proof. intros. rewrite !handle_groups_concat. congruence. Qed.
+
+Lemma table_eqb_refl : forall a, table_eqb a a = true.
+Proof. intros. apply table_eqb_eq. reflexivity. Qed.
+
+(* the model's own round trip passes the checker (parquet), or fails it in exactly the
+   known class (JSON: only the tables the JSON state does not hold) *)
+Lemma c39_model_passes_all : forall ge gi latest da d,
+  wf_sdb latest da d ->
+  (exists dst, regenesis 1 ge gi latest da d = Some dst /\ c39_code d dst true true = 1) /\
+  (exists dst, regenesis 0 ge gi latest da d = Some dst /\
+     (c39_code d dst true true = 1 \/ c39_code d dst true true = 3)).
+Proof.
+  intros ge gi latest da d Hwf. split.
+  - exists d. split; [apply regenesis_parquet_all; exact Hwf|].
+    apply c39_code_iff. repeat split.
+  - exists (json_part d). split; [apply regenesis_json_all; exact Hwf|].
+    unfold c39_code, json_part.
+    cbn [t_coins t_msgs t_blobs t_code t_utxo t_state t_assets t_ptx t_mdata t_mmeta].
+    rewrite !table_eqb_refl. cbn [andb negb].
+    destruct (table_eqb (t_ptx d) [] && table_eqb (t_mdata d) [] && table_eqb (t_mmeta d) []); cbn [negb]; auto.
+Qed.
